@@ -16,8 +16,9 @@ RULES = {
     "C14": "seeded cases: one raw device, 1-4 set/start/append*/stop cycles to fresh paths (relative, absolute, file:// "
            "spellings; zero-append cycles), frames of random shape/type (all size residues) grouped into random packets, "
            "75% of the cases with every pwrite split into random positive short writes by the interposed pwrite; in a third "
-           "of the cases a second raw device fails to start on a file locked by another holder and is closed right after, "
-           "in the middle of, or after the appends of the device under test; plus acquisitions of 4.3-8 GiB (frames of "
+           "of the cases a second raw device interferes - it fails to start on a file locked by another holder, or has "
+           "finished an acquisition of its own and is handed one more packet, or fails its first append on /dev/full - and is "
+           "closed (or handed the late packet) right after, in the middle of, or after the appends of the device under test; plus acquisitions of 4.3-8 GiB (frames of "
            "0.3-1.2 GiB stored sparsely by the interposed pwrite, byte-identical to a full write). Oracle: "
            "file bytes == concatenation of the cycle's packets, exact size. Distinct = hash of (frames per cycle, URI "
            "spelling) sequences; every case is non-trivial (>=1 multi-packet cycle or a restart).",
